@@ -31,10 +31,11 @@ func init() {
 			{Name: "retry-write-timeout", Weight: 1, Bubble: true, Run: c07RetryTimeout},
 			{Name: "slow-peer-with-read-timeout", Weight: 1, Bubble: true, Run: c07ReadTimeoutStall},
 			{Name: "write-timeout-window", Weight: 1, Bubble: true, Run: c07WriteWindow},
+			{Name: "message-object-written-again", Weight: 1, Bubble: true, Run: c07Reuse},
 			{Name: "sweep-retry", Run: c07Sweep, SweepN: c07SweepN, QuickSweep: true, Exhaustive: true,
 				SweepNote: "every sequence of up to 3 outcomes over {accept 0, 1, half, all} x {temporary, permanent, plain error} (then success), x retry budgets 0..3 x {io.Writer, MultistreamWriter}: 15 080 cases"},
 		},
-		MustProbes: []string{"writer-blocked-on-lock", "stall-with-queued-writers", "retry-resumed", "sctp-concurrent-writes", "sctp-write-stall", "retry-after-write-timeout", "write-timeout", "sctp-retry-while-reader-elsewhere", "answer-stalled-past-read-timeout", "second-write-late-in-window"},
+		MustProbes: []string{"writer-blocked-on-lock", "stall-with-queued-writers", "retry-resumed", "sctp-concurrent-writes", "sctp-write-stall", "retry-after-write-timeout", "write-timeout", "sctp-retry-while-reader-elsewhere", "answer-stalled-past-read-timeout", "second-write-late-in-window", "message-rewritten-after-edit"},
 	})
 }
 
@@ -1143,5 +1144,85 @@ func c07WriteWindow(e *Env) {
 	}
 	if r.err != nil || !bytes.Equal(sc.Written(), append(append([]byte{}, want1...), want2...)) {
 		e.Fail("C07/torn-message/write-window", "Server.WriteTimeout=%v: a message written %v after the previous one stalled in the transport for %v (less than the timeout) and did not reach the peer whole: n=%d of %d, err=%v", T, gap, stall, r.n, len(want2), r.err)
+	}
+}
+
+// c07Reuse: one writer keeps a Message (and the grouped AVP inside it) and writes it again and
+// again, editing values in place between the writes, as a client does that updates a counter
+// in a request template. Every write must put the message's current content on the wire.
+func c07Reuse(e *Env) {
+	t := e.T
+	e.TrustWait = true
+	sc := newSimConn(e, "c0", drawAddr(t, 3868), drawAddr(t, 40000))
+	mux := diam.NewServeMux()
+	conn, err := diam.NewConn(sc, "sim", mux, simDict())
+	if err != nil {
+		e.Harness("NewConn: %v", err)
+	}
+	defer func() { sc.EndRead(io.EOF, false); e.Quiesce() }()
+	oct := func(n int, salt byte) []byte { return marker(0, int(salt), n, salt) }
+	curOct := oct(t.Range(1, 60), 1)
+	curU32 := uint32(t.Draw(1 << 30))
+	curInner := oct(t.Range(1, 40), 2)
+	m := diam.NewMessage(900, diam.RequestFlag, 0, 0x51, 0x52, simDict())
+	m.NewAVP(avpSimOctets, 0, 0, datatype.OctetString(curOct))
+	grp := &diam.GroupedAVP{AVP: []*diam.AVP{
+		diam.NewAVP(avpSimU32, 0, 0, datatype.Unsigned32(curU32)),
+		diam.NewAVP(avpSimOctets, 0, 0, datatype.OctetString(curInner)),
+	}}
+	m.NewAVP(avpSimGroup, 0, 0, grp)
+	ref := func() []byte {
+		return RefMsg{Cmd: 900, Flags: 0x80, HbH: 0x51, E2E: 0x52, AVPs: []RefAVP{
+			{Code: avpSimOctets, Data: curOct},
+			{Code: avpSimGroup, Group: []RefAVP{{Code: avpSimU32, Data: u32(curU32)}, {Code: avpSimOctets, Data: curInner}}},
+		}}.Bytes()
+	}
+	var want []byte
+	n := t.Range(2, 6)
+	for k := 0; k < n && !e.Failed(); k++ {
+		if k > 0 {
+			switch t.Draw(4) {
+			case 0: // a counter inside the group changes, sizes stay
+				curU32 = uint32(t.Draw(1 << 30))
+				grp.AVP[0].Data = datatype.Unsigned32(curU32)
+			case 1: // a string inside the group changes, same length
+				curInner = oct(len(curInner), byte(10+k))
+				grp.AVP[1].Data = datatype.OctetString(curInner)
+			case 2: // a top-level value is replaced by a shorter or longer one
+				curOct = oct(t.Range(1, 90), byte(20+k))
+				m.AVP[0] = diam.NewAVP(avpSimOctets, 0, 0, datatype.OctetString(curOct))
+			default: // the group member changes size
+				curInner = oct(t.Range(1, 60), byte(30+k))
+				grp.AVP[1] = diam.NewAVP(avpSimOctets, 0, 0, datatype.OctetString(curInner))
+				m.AVP[1] = diam.NewAVP(avpSimGroup, 0, 0, grp)
+			}
+			m.Header.MessageLength = uint32(m.Len())
+			e.Probe("message-rewritten-after-edit")
+		}
+		cur := ref()
+		want = append(want, cur...)
+		var nw int64
+		var werr error
+		func() {
+			defer func() {
+				if r := recover(); r != nil {
+					e.Fail("C07/library-panic/write", "writing a message object that had been written before and edited since panicked inside the library: %v", r)
+				}
+			}()
+			nw, werr = m.WriteTo(conn)
+		}()
+		if e.Failed() {
+			return
+		}
+		e.Quiesce()
+		e.NonTrivial()
+		if werr != nil || int(nw) != len(cur) {
+			e.Fail("C07/write-failed/reuse", "write #%d of a re-used message: n=%d (message is %d bytes) err=%v", k, nw, len(cur), werr)
+			return
+		}
+		if !bytes.Equal(sc.Written(), want) {
+			e.Fail("C07/garbled-message/reuse", "write #%d of a message object that had been written before and edited since: the bytes on the wire are not the message's current content", k)
+			return
+		}
 	}
 }
